@@ -229,7 +229,8 @@ def check(ctx):
         run.check(ok, 'R19r', init.where, init.qualname, "self.%s = counters.get(%r, %r)" % (attr, key, default),
                   'counter attribute %s is not configured from its own key with the documented default' % attr)
     # stats read back from the same attributes
-    hd = db.methods.get('handle_datapackage')
+    from sa.normalize import call_idioms as _ci9
+    hd = _ci9(ctx, ctx.N(db.methods.get('handle_datapackage'), keep=tuple(m_.qualname for n_, m_ in db.methods.items() if n_ in ('get_attr', 'set_attr', 'inc_attr'))))      # (locals for the descriptor and for DumperBase.get_attr read through)
     want = {'count_of_rows': 'self.datapackage_rowcount', 'bytes': 'self.datapackage_bytes', 'hash': 'self.datapackage_hash'}
     for st in own_nodes(hd.node):
         if isinstance(st, ast.Assign) and isinstance(st.targets[0], ast.Subscript) and pseudo(st.targets[0].value) == 'self.stats':
